@@ -13,7 +13,19 @@ from .c05 import may_raise
 FILTER = "sansldap._filter"
 ENTRY = f"{FILTER}.LDAPFilter.from_string"
 FSE = f"{FILTER}.FilterSyntaxError"
-PATTERN = "_ATTRIBUTE_PATTERN"
+PARSER_NAMES = set()
+PATTERN = "_ATTRIBUTE_PATTERN"      # replaced at run time by the discovered name (see attribute_pattern_name)
+
+
+def attribute_pattern_name(model: Model) -> str:
+    """The compiled pattern that parser functions (reachable from from_string, not nested callbacks) use with .match."""
+    from ..anchors import filt as filter_anchors
+    from ..rx.sites import find_sites
+    fa = filter_anchors(model)
+    names = {s.name for s in find_sites(model) if s.api == "match" and s.name != "<inline>" and not s.nested and any(s.func == f.qualname for f in fa.parser_functions)}
+    if len(names) != 1:
+        raise AnalysisError(f"attribute-description pattern not identified (candidates: {sorted(names)})")
+    return names.pop()
 
 
 def is_window_scanner_index(model: Model, mr, e: Esc) -> bool:
@@ -113,7 +125,7 @@ def dim_env(fi: FuncInfo) -> Dict[str, str]:
                     env[tg.id] = "L" if isinstance(n.value, ast.Constant) else env.get(tg.id, "?")
             elif isinstance(tg, ast.Tuple) and isinstance(n.value, ast.Call):
                 # (filter, consumed) = parser(...): the second component is a consumed count
-                if len(tg.elts) == 2 and isinstance(tg.elts[1], ast.Name) and norm(n.value.func).startswith("_unpack"):
+                if len(tg.elts) == 2 and isinstance(tg.elts[1], ast.Name) and norm(n.value.func) in PARSER_NAMES:
                     env[tg.elts[1].id] = "L"
     return env
 
@@ -127,12 +139,17 @@ def check(model: Model, run: Run) -> None:
                        "input'; (3) every attribute description / matching rule that reaches a filter constructor passed a match of the attribute "
                        "pattern on that path, and the pattern's language is included in RFC 4512's (regular-language inclusion, Engine E)")
     model.func(ENTRY)
+    global PATTERN, PARSER_NAMES
+    PATTERN = attribute_pattern_name(model)
+    from ..anchors import filt as filter_anchors
+    fa_ = filter_anchors(model)
+    PARSER_NAMES = {f.name for f in fa_.parser_functions}
     escs = mr.escapes(ENTRY, None)
     if mr.unknown_calls:
         raise AnalysisError("unresolved call sites on the from_string path: " + "; ".join(sorted(set(mr.unknown_calls))[:5]))
     reach = sorted({k[0] for k in mr.summ if k[0].startswith(FILTER)})
     run.coverage["functions_analysed"] = len(reach)
-    run.floor("filter functions reachable from from_string", len([q for q in reach if "_unpack" in q or "from_string" in q]), 7)
+    run.floor("filter functions reachable from from_string", len(fa_.parser_functions), 6)
     undecided = []
     for e in sorted(escs, key=lambda e: (e.exc, e.func, e.line)):
         if exc_is_sub(model, e.exc, FSE):
